@@ -5,8 +5,7 @@ From TxVerif Require Import Lib.Bytes Lib.Hex Spec.C04 Spec.C04Oracle Gen.AuthCo
 Import ListNotations.
 Open Scope N_scope.
 
-Definition wf (e : env) : Prop :=
-  List.length (e_nonce e) = 32%nat /\ cookie_path_high e = false.
+Definition wf (e : env) : Prop := List.length (e_nonce e) = 32%nat.
 
 (* password is the expected method but the model declines: a cookie method is advertised and
    its COOKIEFILE is missing or has the wrong length *)
@@ -47,7 +46,7 @@ Lemma firstn_all_len {A} (l : list A) n : List.length l = n -> firstn n l = l.
 Proof. intros <-. apply firstn_all. Qed.
 
 Lemma nonce_firstn e : wf e -> firstn (N.to_nat nonce_len) (e_nonce e) = e_nonce e.
-Proof. intros [H _]. apply firstn_all_len. rewrite H. reflexivity. Qed.
+Proof. intros H. apply firstn_all_len. rewrite H. reflexivity. Qed.
 
 Lemma adv_has e x : pi_auth (e_pi e) = true -> adv e (s x) = has e x.
 Proof. intros H. unfold adv, has. rewrite H. reflexivity. Qed.
@@ -63,11 +62,10 @@ Proof.
   rewrite !(adv_has e _ Hauth).
   cbn [auth_order existsb fst snd is_cookie_kind is_pw_kind select andb orb].
   unfold provider_set.
-  destruct Hwf as [_ Hhigh]. unfold cookie_path_high in Hhigh.
   generalize (has e "SAFECOOKIE") (has e "COOKIE") (has e "HASHEDPASSWORD") (has e "NULL").
   intros hS hC hH hN.
   destruct (pi_cookiefile (e_pi e)) as [p|].
-  - rewrite (unescape_roundtrip p Hhigh).
+  - rewrite (unescape_roundtrip p).
     destruct (lookup p (e_fs e)) as [| |d]; [| |change cookie_len with 32; destruct (nlen d =? 32)];
       destruct hS, hC, hH, hN; destruct (e_provider e) as [| |pw|pw|pw|]; try reflexivity; destruct pw; reflexivity.
   - destruct hS, hC, hH, hN; destruct (e_provider e) as [| |pw|pw|pw|]; try reflexivity; destruct pw; reflexivity.
